@@ -208,3 +208,8 @@ package sctp
 //@   ensures#fits-one-chunk result1 == nil ==> len(result0) == 8+8*len(c.streams) && len(result0) <= 65535 && result0[0] == 194
 //@   tags C12
 //@   safety C03
+
+//@ func chunkAbort.marshal
+//@   loop 1 atentry assert#encodes-from-an-empty-value{C12} len(a.raw) == 0
+//@ func chunkError.marshal
+//@   loop 1 atentry assert#encodes-from-an-empty-value{C12} len(a.raw) == 0
